@@ -54,6 +54,10 @@ pub enum PayLie {
     TokenShifted(ScSpec),
     /// valid token, but the old message claimed differs from the signed one (slot 3 or 4)
     TokenForOtherState(bool, ScSpec),
+    /// no token at all: the blinded signature shown is (P, P) for the curve point P = (0, 2) of order 3,
+    /// which lies outside the prime-order subgroup - not the identity, and its pairing with anything
+    /// is 1, so the pairing link holds for whatever old state is claimed (slot 3 or 4 raised)
+    TokenOutsideSubgroup(bool, ScSpec),
 }
 
 impl PayLie {
@@ -75,6 +79,7 @@ impl PayLie {
             PayLie::TokenOtherKey => "token-of-other-key".into(),
             PayLie::TokenShifted(_) => "token-tampered".into(),
             PayLie::TokenForOtherState(..) => "token-for-other-state".into(),
+            PayLie::TokenOutsideSubgroup(..) => "no-token/points-outside-the-subgroup".into(),
         }
     }
 }
@@ -126,6 +131,7 @@ fn lie_strategy() -> impl Strategy<Value = PayLie> {
         1 => Just(PayLie::TokenOtherKey),
         1 => delta_spec().prop_map(PayLie::TokenShifted),
         2 => (any::<bool>(), delta_spec()).prop_map(|(a, d)| PayLie::TokenForOtherState(a, d)),
+        1 => (any::<bool>(), delta_spec()).prop_map(|(a, d)| PayLie::TokenOutsideSubgroup(a, d)),
     ]
 }
 
@@ -157,7 +163,7 @@ fn strat_strategy() -> impl Strategy<Value = PayStrategy> {
 fn natural_field(lie: &PayLie, alt: bool) -> Option<PayField> {
     Some(match lie {
         PayLie::None => return None,
-        PayLie::WrongNonce(_) | PayLie::TokenOtherKey | PayLie::TokenShifted(_) | PayLie::TokenForOtherState(..) => PayField::Token,
+        PayLie::WrongNonce(_) | PayLie::TokenOtherKey | PayLie::TokenShifted(_) | PayLie::TokenForOtherState(..) | PayLie::TokenOutsideSubgroup(..) => PayField::Token,
         PayLie::OldLockMismatch(_) => if alt { PayField::Token } else { PayField::RevLock },
         PayLie::TagReplaced(..) | PayLie::NewLockMismatch(_) | PayLie::CloseBalanceMismatch(..) | PayLie::Compensating(..) => PayField::Close,
         PayLie::ForeignCid(w, _) => if w % 3 == 2 { PayField::Close } else { PayField::State },
@@ -363,27 +369,46 @@ fn oracle(c: &Case, rec: &Rec) -> R {
         PayLie::TokenShifted(d) => {
             token.1 = (G1Projective::from(token.1) + G1Projective::from(token.0) * nonzero(d)).to_affine();
         }
-        PayLie::TokenForOtherState(cust, d) => {
-            // claim a richer old state than the one the token signs
+        PayLie::TokenForOtherState(cust, d) | PayLie::TokenOutsideSubgroup(cust, d) => {
+            // claim another (richer, where there is room) old state than the one the token signs; the
+            // new state follows the claimed old state and stays in range, so that nothing but the
+            // token is wrong with the attempt
             let k = if *cust { 3 } else { 4 };
-            old_claim[k] += nonzero(d);
+            let mut dv: i128 = match d {
+                ScSpec::Small(v) => (*v as i128).max(1),
+                ScSpec::Rand(r) => (*r >> 44) as i128 + 1,
+                _ => 1,
+            };
+            let cur = if *cust { ncb } else { nmb };
+            let room = MAXB as i128 - cur;
+            if dv > room {
+                dv = if room > 0 { room } else { -1 };
+            }
+            old_claim[k] += i128_scalar(dv);
+            if *cust {
+                ncb += dv;
+            } else {
+                nmb += dv;
+            }
         }
+    }
+    match &c.lie {
+        PayLie::TokenOutsideSubgroup(..) => {
+            let mut e = [0u8; 48];
+            e[0] = 0x80;
+            let p3: Option<bls12_381::G1Affine> = bls12_381::G1Affine::from_compressed_unchecked(&e).into();
+            let p3 = p3.expect("(0, 2) is on the curve");
+            token = (p3, p3);
+        }
+        _ => {}
     }
     if amt.unsigned_abs() > MAXB as u128 {
         rec.class("amount-not-representable");
         return Ok(());
     }
     // new balances as scalars (possibly negative / out of range for the lies)
-    let mut s_cb = i128_scalar(ncb);
-    let mut s_mb = i128_scalar(nmb);
-    if let PayLie::TokenForOtherState(cust, d) = &c.lie {
-        // the new state follows the *claimed* old state
-        if *cust {
-            s_cb += nonzero(d);
-        } else {
-            s_mb += nonzero(d);
-        }
-    }
+    let s_cb = i128_scalar(ncb);
+    let s_mb = i128_scalar(nmb);
     let clamp = |v: i128| -> u128 {
         if v < 0 || v > MAXB as i128 {
             0
@@ -412,6 +437,7 @@ fn oracle(c: &Case, rec: &Rec) -> R {
         // variant 4: two jointly crafted digit proofs whose pairing errors cancel, aimed at -1
         cb_cancel: if matches!(c.lie, PayLie::Overdraw(4)) { Some(-Scalar::one()) } else { None },
         mb_cancel: if matches!(c.lie, PayLie::MerchantOverdraw(4)) { Some(-Scalar::one()) } else { None },
+        raw_token: matches!(c.lie, PayLie::TokenOutsideSubgroup(..)),
     };
     // compensating lies: one slot raised in the new state and lowered in the close state
     let mut hidden = hidden;
@@ -435,7 +461,17 @@ fn oracle(c: &Case, rec: &Rec) -> R {
 
     let mut f = PayForger::commit(m, &template, &hidden, c.seed);
     f.truthful = Some(truthful);
-    let draft: PayProof = wire::dec(&f.bytes()).map_err(|e| Fail::new("harness/draft-undecodable", e))?;
+    let draft: PayProof = match wire::dec(&f.bytes()) {
+        Ok(d) => d,
+        Err(_) if matches!(c.lie, PayLie::TokenOutsideSubgroup(..)) => {
+            // the decoder refuses points outside the subgroup: the attempt never reaches the verifier
+            rec.eval(1);
+            rec.class(&format!("{}/refused-by-the-decoder", c.lie.label()));
+            rec.nontrivial((c.lie.label(), format!("{:?}", c.strategy), c.seed));
+            return Ok(());
+        }
+        Err(e) => return Err(Fail::new("harness/draft-undecodable", e)),
+    };
     let _ = drain();
     let _ = m.cfg.allow_payment(&mut rng(c.seed), amount_v, &nonce_v, draft, &ctx);
     let Some((_, ch)) = drain().last().cloned() else {
